@@ -15,7 +15,7 @@ m("C01", "partial-ack-revert-D3", TCP + "snd.go", "\t\t\t\tseg.sequenceNumber.Up
 m("C01", "pushfront", TCP + "endpoint.go", "\t\te.rcvList.PushBack(s)\n", "\t\te.rcvList.PushFront(s)\n", "R3", "receive list becomes LIFO")
 m("C01", "readytoread-no-lock", TCP + "endpoint.go", "func (e *endpoint) readyToRead(s *segment) {\n\te.rcvListMu.Lock()\n", "func (e *endpoint) readyToRead(s *segment) {\n", "R2", "queue touched without rcvListMu")
 m("C01", "deliver-before-window-test", TCP + "rcv.go", "\t\tif !r.rcvNxt.InWindow(segSeq, segLen) {", "\t\tr.ep.readyToRead(s)\n\t\tif !r.rcvNxt.InWindow(segSeq, segLen) {", "R3", "delivery before the in-window test")
-m("C01", "benign-log", TCP + "rcv.go", "\t\tr.ep.readyToRead(s)\n\n\t} else if segSeq != r.rcvNxt {", "\t\tlog.Printf(\"deliver %d\", segLen)\n\t\tr.ep.readyToRead(s)\n\n\t} else if segSeq != r.rcvNxt {", benign=True, why="logging added")
+m("C01", "benign-log", TCP + "rcv.go", "\t\tr.ep.readyToRead(s)\n\n\t} else if segSeq != r.rcvNxt {", "\t\tprintln(\"deliver\", segLen)\n\t\tr.ep.readyToRead(s)\n\n\t} else if segSeq != r.rcvNxt {", benign=True, why="logging added")
 m("C01", "benign-rename-local", TCP + "rcv.go", "\t\t\tdiff := segSeq.Size(r.rcvNxt)\n\t\t\tsegLen -= diff\n\t\t\tsegSeq.UpdateForward(diff)\n\t\t\ts.sequenceNumber.UpdateForward(diff)\n\t\t\ts.data.TrimFront(int(diff))", "\t\t\tdup := segSeq.Size(r.rcvNxt)\n\t\t\tsegLen -= dup\n\t\t\tsegSeq.UpdateForward(dup)\n\t\t\ts.sequenceNumber.UpdateForward(dup)\n\t\t\ts.data.TrimFront(int(dup))", benign=True, why="local renamed")
 
 # ---------------------------------------------------------------- C02
